@@ -129,7 +129,7 @@ def stepH (s : S) (ws : List String) (h : Hist Float) : S × String :=
       | .val (st, h', m) => ({ s with h := some h' }, if st == .ok then s!"ok mass={fb m}" else st.name)
     | none => (s, "bad-op")
   | "hexpfit" :: _ => (s, fitOut (expFitCompleteBinned h))
-  | "hgamfit" :: _ => (s, "unmodelled")
+  | "hgamfit" :: _ => (s, fitOut (gamFitCompleteBinned h))
   | "hweifit" :: _ => (s, fitOut (weiFitCompleteBinned h))
   | "hsxpfit" :: _ => (s, "unmodelled")
   | _ => (s, "bad-op")
